@@ -4,7 +4,7 @@
     [sel X s e] is numpy's [X[s:e]] for non-negative bounds and [np_get] the
     CPython/numpy indexing semantics for arbitrary int/slice indices. *)
 From Coq Require Import ZArith QArith Qround List Bool Lia.
-From OG Require Import Base.Result Base.ListSel Model.Roi Proofs.RoiProofs Proofs.RoiPointsProofs.
+From OG Require Import Base.Result Base.ListSel Model.Roi Proofs.RoiProofs Proofs.RoiPointsProofs Proofs.RoiGenEquiv.
 Import ListNotations.
 Open Scope Z_scope.
 
@@ -153,3 +153,10 @@ Example C17_ex_points :
   roi_from_points [Some (5#1, 5#1); Some (3000000000#1, 7#1); Some (-3000000000#1, 3#1); None]%Q
                   100 100 0 None = ((3, 7), (0, 100)).
 Proof. vm_compute. reflexivity. Qed.
+
+(** Tie to the source: the definitions regenerated by tools/py2v from the current
+    odc/geo/roi.py and odc/geo/math.py (coq/Gen/RoiGen.v, rewritten on every run)
+    are the model the theorems above are stated on. *)
+Theorem C17_source_is_model : roi_source_is_model.
+Proof. exact roi_source_is_model_holds. Qed.
+Print Assumptions C17_source_is_model.
